@@ -14,7 +14,8 @@ def content(rng, tag):
     r = rng.random()
     if r < 0.2: return b"g1=" + tag + b"\ng2 = two words\n"
     if r < 0.35: return b"[S]\nk=" + tag + b"\n[E]\n[T]\nz=1\n cont\n"
-    if r < 0.45: return b"only=" + tag + b"\n[broken\n"
+    if r < 0.4: return b"only=" + tag + b"\n[broken\n"
+    if r < 0.45: return rng.choice([b"only=" + tag + b"\nx=1\n[broken", b"[broken", b"a=1\n[s] junk"])       # offending line last, no newline
     if r < 0.5: return b"key value without delimiter\n"
     if r < 0.65:   # both comment characters in use: a standalone note, a note below an entry, a trailing note
         return b"; note of " + tag + b"\na=" + tag + b" ; trailing\n# hash note\nb=2\n; below an entry\n[S]\nc=3 # t\n"
